@@ -47,7 +47,9 @@ def save_obs(vec):
             '_what': f"save(kind={kind!r}, {kw})", '_msg': str(err)[:100] if err else ''}
 
 
-CLI = {'ok_file': (['--scale', '2'], True), 'ok_terminal': ([], False), 'bad_version': (['--version', '41'], True),
+CLI = {'ok_file': (['--scale', '2'], True), 'ok_terminal': ([], False), 'ok_lower_micro_version': (['--version', 'm2'], True),
+       'ok_upper_micro_version': (['-v', 'M3'], True), 'ok_micro_flag': (['--micro'], True), 'ok_lower_error': (['--error', 'q'], True),
+       'ok_mode_upper': (['--mode', 'BYTE'], True), 'bad_version': (['--version', '41'], True),
        'H_with_micro_version': (['--version', 'M2', '--error', 'H'], True), 'overflow_version_1': (['--version', '1', '--error', 'H'], True),
        'numeric_mode_for_text': (['--mode', 'numeric'], True), 'pattern_9': (['--pattern', '9'], True),
        'symbol_count_17': (['--seq', '--symbol-count', '17'], True), 'eci_unavailable_micro': (['--version', 'M5x'], False),
@@ -87,6 +89,8 @@ def cli_obs(vec, use_subprocess=False):
     a = vec['args']
     flags, with_file = CLI[a['cls']]
     content = CONTENT if a['cls'] != 'overflow_version_1' else CONTENT * 3
+    if a['cls'] in ('ok_lower_micro_version', 'ok_upper_micro_version', 'ok_micro_flag'):
+        content = '12345'
     tmp = tempfile.mkdtemp(prefix='c14_', dir=common.workdir('C14_tmp'))
     try:
         p = os.path.join(tmp, 'out.png')
